@@ -12,7 +12,7 @@ const bufT = "gossip/dagordering.EventsBuffer"
 
 func init() {
 	register("C14", "other", "T17 Typestate (released flag), T2/T4 Dominates/GuardedBy, T5 ExactlyOneOf, T7 Pairing, T3 PostDominates, T1 LockSet",
-		"Decides the structural conditions of the ordering buffer's contract on the inlined view of pushEvent / PushEvent / spillIncompletes (helpers of the package expanded, so the facts do not depend on how the code is cut into functions): callback.Process is reachable only for an event whose parents were all found and whose Check passed, and only for an event that cannot already be released (fresh allocation, or a guard on its released flag / buffer membership taken after the last point where other events may have been processed — the recheck recursion over a stale snapshot is the case tests never reach); released is written only by releaseEvent, which reports only on the not-yet-released edge; every removal from the buffer is paired with releaseEvent of that event and every push ends in exactly one of buffered / released; the spill loop runs after every push and exits only within both limits; PushEvent and Clear hold the mutex throughout. Liveness (every event of a parents-closed set is eventually processed) is not decided.",
+		"Decides the structural conditions of the ordering buffer's contract on the inlined view of pushEvent / PushEvent / spillIncompletes (helpers of the package expanded, so the facts do not depend on how the code is cut into functions): callback.Process is reachable only for an event whose parents were all found and whose Check passed, and only for an event that cannot already be released (fresh allocation, or a guard on its released flag / buffer membership taken after the last point where other events may have been processed — the recheck recursion over a stale snapshot is the case tests never reach); released is written only by releaseEvent, which reports only on the not-yet-released edge; every removal from the buffer is paired with releaseEvent of that event and every push ends in exactly one of buffered / released; the spill loop runs after every push and exits only within both limits; PushEvent and Clear hold the mutex throughout. Of the completeness part (every event of a parents-closed set is eventually processed) one necessary condition is decided: the recheck iteration passes over a buffered event without pushing it again only when that event is released or after its whole parents list was compared with the ID of the event just connected; liveness beyond that is not decided.",
 		[]string{"application callbacks are opaque", "wlru.Cache is internally synchronised (C28/C29)"},
 		runC14)
 }
@@ -47,16 +47,71 @@ func runC14(c *core.Ctx) {
 		return false
 	}
 
+	// The function that marks an event released is located by what it does: it is the declared function
+	// of the package that writes event.released. So it may be renamed, become a method of the event, or
+	// receive the Released callback as an argument instead of reading it from the buffer.
+	var relWriters []*core.FuncInfo
+	for _, f := range p.FuncsInPkg("gossip/dagordering") {
+		if len(assignsToField(f, relF)) > 0 {
+			relWriters = append(relWriters, f)
+		}
+	}
+	var relFn *core.FuncInfo
+	for _, w := range relWriters {
+		if w.Name == relName {
+			relFn = w
+		}
+	}
+	if relFn == nil && len(relWriters) > 0 {
+		relFn = relWriters[0]
+	}
+	if relFn != nil {
+		relName = relFn.Name
+	}
+	// function-typed parameters of the release function to which every call in the package passes the
+	// callback.Released field
+	relCbParams := func(rel *core.FuncInfo) map[*types.Var]bool {
+		out := map[*types.Var]bool{}
+		sig, _ := rel.Obj.Type().(*types.Signature)
+		if sig == nil {
+			return out
+		}
+		for i := 0; i < sig.Params().Len(); i++ {
+			pv := rel.Param(i)
+			if pv == nil {
+				continue
+			}
+			if _, isFn := pv.Type().Underlying().(*types.Signature); !isFn || len(assignsToVar(rel, pv)) > 0 {
+				continue
+			}
+			n, ok := 0, true
+			for _, fg := range allFuncs() {
+				for _, cs := range fg[1].CallsTo(rel.Name) {
+					n++
+					if cs.InGo || i >= len(cs.Call.Args) || len(cs.Call.Args) != sig.Params().Len() || fieldNameOf(fg[1], cs.Call.Args[i]) != cbReleased {
+						ok = false
+					}
+				}
+			}
+			if ok && n > 0 {
+				out[pv] = true
+			}
+		}
+		return out
+	}
+
 	c.Clause("C14.released", func() {
 		c.Fld(relF)
-		// T6: released is written only in releaseEvent
+		c.Need(relFn != nil && relFn.Obj != nil, "a declared function of the package sets event.released")
+		rel := relFn
+		// T6: released is written only in the release function
 		n := 0
 		for _, f := range p.FuncsInPkg("gossip/dagordering") {
 			for _, a := range assignsToField(f, relF) {
 				n++
-				c.Check(f.Name == relName, "write of released in "+short(f.Name), "T6 WhoMayWrite", a.Stmt.Pos(), "released is set by releaseEvent only", "released is written outside releaseEvent")
+				c.Check(f == rel, "write of released in "+short(f.Name), "T6 WhoMayWrite", a.Stmt.Pos(), "released is set by one function ("+short(rel.Name)+") only", "released is written outside "+short(rel.Name))
 			}
-			for _, l := range f.Lits() {
+			for _, l := range allLits(f) {
 				for _, a := range assignsToField(l, relF) {
 					n++
 					c.Fail("write of released in "+short(l.Name), "T6 WhoMayWrite", a.Stmt.Pos(), "released is written in a function literal")
@@ -64,8 +119,15 @@ func runC14(c *core.Ctx) {
 			}
 		}
 		c.ExpectAtLeast("writes of event.released", n, 1)
-		rel := c.Fn(relName)
-		ev := rel.Param(0)
+		// the event whose flag the function sets: the root of the assignment target
+		var ev *types.Var
+		for _, a := range assignsToField(rel, relF) {
+			root, path := fieldPath(rel, a.LHS)
+			if v := varOf(rel, root); len(path) == 1 && v != nil && ev == nil {
+				ev = v
+			}
+		}
+		c.Need(ev != nil && (ev == rel.Recv() || len(assignsToVar(rel, ev)) == 0), "the release function sets the flag of its receiver or of a parameter")
 		isNotReleased := func(f *core.FuncInfo, v *types.Var) func(core.Fact) bool {
 			return func(ft core.Fact) bool {
 				cm, ok := core.NormCmp(ft)
@@ -76,12 +138,26 @@ func runC14(c *core.Ctx) {
 				return cm.Op == token.NEQ && len(path) == 1 && path[0] == relF && varOf(f, root) == v
 			}
 		}
-		calls := rel.CallsTo(cbReleased)
+		cbParams := relCbParams(rel)
+		var calls []*core.CallSite
+		viaParam := map[*core.CallSite]*types.Var{}
+		for _, cs := range rel.Calls() {
+			if cs.Name == cbReleased {
+				calls = append(calls, cs)
+			} else if pv, isVar := cs.Callee.(*types.Var); isVar && cbParams[pv] {
+				calls = append(calls, cs)
+				viaParam[cs] = pv
+			}
+		}
 		c.ExpectAtLeast("Released callback sites in releaseEvent", len(calls), 1)
 		for _, cs := range calls {
 			ok, wit := rel.GuardedBy(cs.Pt, isNotReleased(rel, ev))
 			c.Check(ok, "Released reported only when not yet released", "T4 GuardedBy", cs.Pos(), "callback.Released is called only on the !e.released edge", "Released can be reported for an already released event: "+rel.DescribePath(wit))
-			ok2, _ := rel.GuardedBy(cs.Pt, fieldNilFact(rel, cbReleased, false))
+			nilFact := fieldNilFact(rel, cbReleased, false)
+			if pv := viaParam[cs]; pv != nil {
+				nilFact = varNilFact(rel, pv, false)
+			}
+			ok2, _ := rel.GuardedBy(cs.Pt, nilFact)
 			c.Check(ok2, "Released nil-guarded", "T4 GuardedBy", cs.Pos(), "callback.Released is nil-guarded", "callback.Released may be called when nil")
 		}
 		// released = true on every path
@@ -105,17 +181,17 @@ func runC14(c *core.Ctx) {
 		}
 		wit, leaves := (core.PathQuery{F: rel, From: rel.Entry(), Target: func(core.Point) bool { return false }, TargetExit: true,
 			Avoid: core.PointSet(sets...), AvoidEdge: rel.GuardEdges(isReleased)}).Find()
-		c.Check(len(sets) > 0 && !leaves, "releaseEvent sets released on every path", "T2 Dominates", rel.Pos(), "every return of releaseEvent follows released = true or the edge on which the event is already released", "releaseEvent can return without marking the event released: "+rel.DescribePath(wit))
+		c.Check(len(sets) > 0 && !leaves, "releaseEvent sets released on every path", "T2 Dominates", rel.Pos(), "every return of the release function follows released = true or the edge on which the event is already released", "the release function can return without marking the event released: "+rel.DescribePath(wit))
 		// no write clears the flag again
 		for _, a := range assignsToField(rel, relF) {
 			if !isIdentNamed(a.RHS, "true") {
-				c.Fail("released is only ever set", "T17 Typestate", a.Stmt.Pos(), "releaseEvent writes a value other than true to released: the exactly-once flag can be cleared")
+				c.Fail("released is only ever set", "T17 Typestate", a.Stmt.Pos(), "the release function writes a value other than true to released: the exactly-once flag can be cleared")
 			}
 		}
 		// T6: Released callback is invoked nowhere else
-		for _, f := range p.FuncsInPkg("gossip/dagordering") {
-			if f != rel && len(f.CallsTo(cbReleased)) > 0 {
-				c.Fail("Released called in "+short(f.Name), "T6 WhoMayCall", f.CallsTo(cbReleased)[0].Pos(), "callback.Released is invoked outside releaseEvent (bypasses the exactly-once flag)")
+		for _, fg := range allFuncs() {
+			if f := fg[1]; f != rel && len(f.CallsTo(cbReleased)) > 0 {
+				c.Fail("Released called in "+short(f.Name), "T6 WhoMayCall", f.CallsTo(cbReleased)[0].Pos(), "callback.Released is invoked outside "+short(rel.Name)+" (bypasses the exactly-once flag)")
 			}
 		}
 	})
@@ -234,6 +310,10 @@ func runC14(c *core.Ctx) {
 		c.ExpectAtLeast("pushEvent call sites", n, 2)
 	})
 
+	c.Clause("C14.recheck", func() {
+		c14Recheck(c, c.Fn(pushName), pushName, relF)
+	})
+
 	c.Clause("C14.parents", func() {
 		push := c.Fn(pushName)
 		vp := c14NewView(push, 4, nil)
@@ -243,41 +323,55 @@ func runC14(c *core.Ctx) {
 		isGet := func(cs *core.CallSite) bool { return cs.Name == cbGet }
 		// a variable that holds the result of the parents lookup of e: every definition of it is a call, with
 		// e as first argument, of a function of the package that asks callback.Get
-		lookups := map[*core.FuncInfo]bool{}
-		fromLookup := func(fr *c14Frame, x ast.Expr) bool {
-			val := fr.val(x)
-			if val.V == nil {
-				return false
-			}
-			as := assignsToVar(val.Fr.Fn, val.V)
-			if len(as) == 0 {
-				return false
-			}
-			var found []*core.FuncInfo
-			for _, a := range as {
-				if a.RHS == nil {
+		// The lookup reports "all parents found" either by a non-nil list (nil is the sentinel for a missing
+		// parent) or by an explicit boolean result: a lookup result is (function, result index).
+		lookups := map[c14Lookup]bool{}
+		fromLookup := func(wantBool bool) func(fr *c14Frame, x ast.Expr) bool {
+			return func(fr *c14Frame, x ast.Expr) bool {
+				val := fr.val(x)
+				if val.V == nil {
 					return false
 				}
-				call, _ := ast.Unparen(a.RHS).(*ast.CallExpr)
-				if call == nil || len(call.Args) < 1 {
+				as := assignsToVar(val.Fr.Fn, val.V)
+				if len(as) == 0 {
 					return false
 				}
-				obj, _ := p.ResolveCallee(val.Fr.Fn.Info(), call)
-				fn, _ := obj.(*types.Func)
-				g := p.FuncOf(fn)
-				if g == nil || (len(g.CallsTo(cbGet)) == 0 && len(g.SitesMay(isGet, 2)) == 0) || !val.Fr.val(call.Args[0]).same(e) {
-					return false
+				var found []c14Lookup
+				for _, a := range as {
+					if a.RHS == nil {
+						return false
+					}
+					call, _ := ast.Unparen(a.RHS).(*ast.CallExpr)
+					if call == nil || len(call.Args) < 1 {
+						return false
+					}
+					obj, _ := p.ResolveCallee(val.Fr.Fn.Info(), call)
+					fn, _ := obj.(*types.Func)
+					g := p.FuncOf(fn)
+					if g == nil || (len(g.CallsTo(cbGet)) == 0 && len(g.SitesMay(isGet, 2)) == 0) || !val.Fr.val(call.Args[0]).same(e) {
+						return false
+					}
+					lk := c14Lookup{g, c14TargetIndex(a)}
+					if isB, known := lk.isBool(); !known || isB != wantBool {
+						return false
+					}
+					found = append(found, lk)
 				}
-				found = append(found, g)
+				for _, lk := range found {
+					lookups[lk] = true
+				}
+				return true
 			}
-			for _, g := range found {
-				lookups[g] = true
-			}
-			return true
 		}
+		nonNilList := c14NilFact(fromLookup(false), false)
+		foundAll := func(ft c14Fact) bool {
+			cm, ok := core.NormCmp(ft.Fact)
+			return ok && cm.R == nil && cm.Op == token.EQL && fromLookup(true)(ft.Fr, cm.L)
+		}
+		complete := func(ft c14Fact) bool { return nonNilList(ft) || foundAll(ft) }
 		anyNonNil := c14NilFact(func(fr *c14Frame, x ast.Expr) bool { return true }, false)
 		for _, pn := range procs {
-			ok, wit := vp.guarded(pn, c14NilFact(fromLookup, false))
+			ok, wit := vp.guarded(pn, complete)
 			if !ok {
 				if o2, _ := vp.guarded(pn, anyNonNil); o2 {
 					c.Fail("parents come from the parents lookup", "provenance", pn.pos(), "the value tested before processing is not the result of the lookup of e's parents through callback.Get")
@@ -288,24 +382,30 @@ func runC14(c *core.Ctx) {
 		}
 		c.ExpectAtLeast("parents lookup functions", len(lookups), 1)
 		// the lookup: a nil Get result returns nil
-		for cep := range lookups {
+		for lk := range lookups {
+			cep, ridx := lk.G, lk.Idx
+			// the "parent missing" value of the result: nil for a list, false for a boolean
+			isMissing := func(e ast.Expr) bool { return core.IsNil(cep.Info(), e) }
+			if isB, _ := lk.isBool(); isB {
+				isMissing = func(e ast.Expr) bool { return c14BoolConst(cep.Info(), e) == 2 }
+			}
 			gets := cep.CallsTo(cbGet)
 			c.ExpectAtLeast("callback.Get sites", len(gets), 1)
 			for _, g := range gets {
 				rv := c14ResultVar(cep, g.Call, 0)
 				c.Need(rv != nil, "Get result is stored in a variable")
-				// every non-nil return is guarded by rv != nil in the iteration; equivalently: from the Get call,
-				// the path continuing the loop / reaching a non-nil return must take the rv != nil edge
-				nonNil := returnsWith(cep, 0, func(e ast.Expr) bool { return !core.IsNil(cep.Info(), e) })
+				// every "all found" return is guarded by rv != nil in the iteration; equivalently: from the Get call,
+				// the path continuing the loop / reaching such a return must take the rv != nil edge
+				nonNil := returnsWith(cep, ridx, func(e ast.Expr) bool { return !isMissing(e) })
 				okAll := len(nonNil) > 0
 				for _, rp := range nonNil {
-					// single-exit form: a returned variable that was set to nil on the way (and not assigned
-					// again before the return) is a nil result
+					// single-exit form: a returned variable that was set to nil / false on the way (and not
+					// assigned again before the return) is a "parent missing" result
 					var nilSets []core.Point
-					if res := varOf(cep, rp.Node().(*ast.ReturnStmt).Results[0]); res != nil {
+					if res := varOf(cep, rp.Node().(*ast.ReturnStmt).Results[ridx]); res != nil {
 						as := assignsToVar(cep, res)
 						for _, a := range as {
-							if a.RHS == nil || !core.IsNil(cep.Info(), a.RHS) {
+							if a.RHS == nil || !isMissing(a.RHS) {
 								continue
 							}
 							final := true
@@ -323,7 +423,7 @@ func runC14(c *core.Ctx) {
 						okAll = false
 					}
 				}
-				c.Check(okAll, "missing parent => nil", "T4 GuardedBy", g.Pos(), "a non-nil parents list is returned only if every Get result was non-nil", "the parents lookup can return a list although a parent was not found")
+				c.Check(okAll, "missing parent => nil", "T4 GuardedBy", g.Pos(), "a non-nil parents list (or the explicit all-found result) is returned only if every Get result was non-nil", "the parents lookup can report a complete parents list although a parent was not found")
 			}
 		}
 		// Check before Process: every path to Process passes the Check call or the Check == nil edge, and
@@ -353,7 +453,8 @@ func runC14(c *core.Ctx) {
 		push := c.Fn(pushName)
 		spill := c.Fn(spillName)
 		pe := c.Fn(bufT + ".PushEvent")
-		rel := c.Fn(relName)
+		c.Need(relFn != nil, "a declared function of the package sets event.released")
+		rel := relFn
 		// the three anchors are looked at one by one: in the view of one of them the others (and
 		// releaseEvent) stay opaque calls, their helpers are expanded
 		isAnchor := func(g *core.FuncInfo) bool { return g == push || g == spill || g == pe || g == rel }
@@ -597,6 +698,54 @@ func c14FollowedBy(f *core.FuncInfo, from core.Point, via []core.Point) (bool, [
 		return false, []core.Point{from}
 	}
 	return f.MustPassAfter(from, plain)
+}
+
+// c14Lookup is one result of a function that looks the parents of an event up.
+type c14Lookup struct {
+	G   *core.FuncInfo
+	Idx int
+}
+
+// isBool: is the result a boolean (true) or a nil-able value (false)? known=false for anything else.
+func (lk c14Lookup) isBool() (isBool, known bool) {
+	if lk.G == nil || lk.G.Obj == nil {
+		return false, false
+	}
+	sig, _ := lk.G.Obj.Type().(*types.Signature)
+	if sig == nil || lk.Idx < 0 || lk.Idx >= sig.Results().Len() {
+		return false, false
+	}
+	switch t := sig.Results().At(lk.Idx).Type().Underlying().(type) {
+	case *types.Basic:
+		return t.Kind() == types.Bool, t.Kind() == types.Bool
+	case *types.Slice, *types.Map, *types.Pointer, *types.Interface, *types.Chan, *types.Signature:
+		return false, true
+	}
+	return false, false
+}
+
+// c14TargetIndex: the position of the assignment's target among the results of its (single, multi-value)
+// right-hand side; 0 for a plain one-to-one assignment.
+func c14TargetIndex(a assignment) int {
+	switch s := a.Stmt.(type) {
+	case *ast.AssignStmt:
+		if len(s.Rhs) == 1 && len(s.Lhs) > 1 {
+			for i, l := range s.Lhs {
+				if l == a.LHS {
+					return i
+				}
+			}
+		}
+	case *ast.ValueSpec:
+		if len(s.Values) == 1 && len(s.Names) > 1 {
+			for i, nm := range s.Names {
+				if ast.Expr(nm) == a.LHS {
+					return i
+				}
+			}
+		}
+	}
+	return 0
 }
 
 // isFreshEvent: e is &event{...} (or new(event)) that does not set released to true.
